@@ -355,3 +355,116 @@ Proof.
   rewrite H0. cbn [bind]. eapply stnt_f_spec; eauto.
   unfold fuel_of. rewrite Hr, app_length. pose proof (print_ltails_length xs). lia.
 Qed.
+
+(* ------------------------------------------------------------------ the end of the text without a final line break *)
+
+Definition comment_txt (cm : option str) : bool := match cm with Some t => forallb txtc t | None => true end.
+
+(* line tails followed by an arbitrary ending E on which one round of the loop stops *)
+Lemma stnt_f_gen (E EC : str) :
+  (forall f s, s_rest s = E -> scan_to_next_token_f (S f) s = Ok (after s EC)) ->
+  (exists x t', E = x :: t') ->
+  forall xs fuel s, forallb wf_ltail xs = true ->
+  s_rest s = print_ltails xs ++ E -> (length xs < fuel)%nat ->
+  scan_to_next_token_f fuel s = Ok (after s (print_ltails xs ++ EC)).
+Proof.
+  intros HE HEne.
+  induction xs as [|[n cm] xs IH]; intros fuel s Hwf Hr Hf;
+    (destruct fuel as [|f]; [cbn [length] in Hf; lia|]).
+  - cbn [print_ltails map concat app] in *. apply HE. exact Hr.
+  - cbn [scan_to_next_token_f].
+    cbn [forallb] in Hwf. apply andb_true_iff in Hwf as [Hw1 Hw2].
+    unfold print_ltails in *. cbn [map concat] in *. unfold print_ltail at 1 in Hr. cbn [fst snd] in Hr.
+    set (REST := concat (map print_ltail xs) ++ E) in *.
+    assert (Hr1 : s_rest s = sp n ++ (print_comment cm ++ [10]) ++ REST).
+    { rewrite Hr. unfold REST. rewrite <- !app_assoc. reflexivity. }
+    assert (Hstep : exists x t', (print_comment cm ++ [10]) ++ REST = x :: t' /\ x <> 32).
+    { destruct cm as [tx|]; cbn [print_comment app]; eexists; eexists; (split; [reflexivity | lia]). }
+    destruct Hstep as [x [t' [Hxt Hx]]]. rewrite Hxt in Hr1.
+    rewrite (skip_spaces s n x t' Hx Hr1). cbn [bind].
+    rewrite (peek_after _ _ _ _ Hr1). cbn [bind].
+    set (s1 := after s (sp n)) in *.
+    assert (Hrs1 : s_rest s1 = (print_comment cm ++ [10]) ++ REST).
+    { unfold s1. rewrite (rest_after _ _ _ Hr1). symmetry. exact Hxt. }
+    assert (Hcm : exists s2, (if x =? c_hash
+                              then skip_while (fun ch => negb (mem_N ch in_scan_to_next_token_0)) s1
+                              else Ok s1) = Ok s2 /\ s2 = after s1 (print_comment cm)).
+    { destruct cm as [tx|]; cbn [print_comment app] in *.
+      - inversion Hxt; subst x. replace (35 =? c_hash) with true by reflexivity.
+        eexists. split; [|reflexivity].
+        cbn [wf_ltail snd] in Hw1.
+        eapply (skip_while_spec _ (35 :: tx) s1 10 REST).
+        + constructor; [reflexivity|]. apply Forall_forall. intros ch Hch.
+          rewrite forallb_forall in Hw1. specialize (Hw1 _ Hch). charfact.
+        + constructor; [charfact | apply Forall_txtc_nocr; assumption].
+        + reflexivity.
+        + rewrite Hrs1. cbn [app]. rewrite <- app_assoc. reflexivity.
+      - inversion Hxt; subst x. replace (10 =? c_hash) with false by reflexivity.
+        eexists. split; reflexivity. }
+    destruct Hcm as [s2 [Hcm ->]]. rewrite Hcm. cbn [bind].
+    assert (Hrs2 : s_rest (after s1 (print_comment cm)) = 10 :: REST).
+    { apply rest_after. rewrite Hrs1, <- app_assoc. reflexivity. }
+    rewrite (scan_line_break_lf _ _ Hrs2). cbn [bind nonempty negb].
+    rewrite (IH f _ Hw2).
+    + unfold s1. rewrite <- !after_app. f_equal. unfold print_ltail. cbn [fst snd].
+      rewrite <- !app_assoc. reflexivity.
+    + apply rest_after. rewrite Hrs2. reflexivity.
+    + cbn [length] in Hf. lia.
+Qed.
+
+(* one round on spaces, an optional comment and the end of the text *)
+Lemma stnt_f_end f s k cm : comment_txt cm = true ->
+  s_rest s = sp k ++ print_comment cm ++ [0] ->
+  scan_to_next_token_f (S f) s = Ok (after s (sp k ++ print_comment cm)).
+Proof.
+  intros Hcm Hr. cbn [scan_to_next_token_f].
+  assert (Hx : exists x t', print_comment cm ++ [0] = x :: t' /\ x <> 32).
+  { destruct cm; cbn [print_comment app]; eexists; eexists; (split; [reflexivity | lia]). }
+  destruct Hx as (x & t' & Ex & Hx). rewrite Ex in Hr.
+  rewrite (skip_spaces s k x t' Hx Hr). cbn [bind]. rewrite (peek_after _ _ _ _ Hr). cbn [bind].
+  set (s1 := after s (sp k)) in *.
+  assert (Hr1 : s_rest s1 = print_comment cm ++ [0]) by (unfold s1; rewrite (rest_after _ _ _ Hr); symmetry; exact Ex).
+  assert (Hc : (if x =? c_hash
+                then skip_while (fun ch => negb (mem_N ch in_scan_to_next_token_0)) s1
+                else Ok s1) = Ok (after s1 (print_comment cm))).
+  { destruct cm as [tx|]; cbn [print_comment app comment_txt] in *.
+    - inversion Ex; subst x. replace (35 =? c_hash) with true by reflexivity.
+      apply (skip_while_spec _ (35 :: tx) s1 0 []).
+      + constructor; [reflexivity|]. apply Forall_forall. intros ch Hch.
+        rewrite forallb_forall in Hcm. specialize (Hcm _ Hch). charfact.
+      + constructor; [charfact | apply Forall_txtc_nocr; assumption].
+      + reflexivity.
+      + exact Hr1.
+    - inversion Ex; subst x. reflexivity. }
+  rewrite Hc. cbn [bind].
+  assert (Hr2 : s_rest (after s1 (print_comment cm)) = [0]) by (apply rest_after; exact Hr1).
+  rewrite (scan_line_break_none _ 0 [] Hr2 eq_refl). cbn [bind nonempty negb].
+  unfold s1. rewrite <- after_app. reflexivity.
+Qed.
+
+Lemma stnt_spec_end xs s k cm : forallb wf_ltail xs = true -> comment_txt cm = true ->
+  s_rest s = print_ltails xs ++ sp k ++ print_comment cm ++ [0] ->
+  scan_to_next_token s = Ok (after s (print_ltails xs ++ sp k ++ print_comment cm)).
+Proof.
+  intros Hwf Hcm Hr. unfold scan_to_next_token.
+  assert (H0 : (if s_idx s =? 0 then do ch <- peek s 0; if ch =? c_bom then forward s 1 else Ok s else Ok s) = Ok s).
+  { destruct (s_idx s =? 0); [|reflexivity].
+    assert (Hh : exists x t', s_rest s = x :: t' /\ x <> c_bom).
+    { rewrite Hr. destruct xs as [|[n c] xs].
+      - cbn [print_ltails map concat app]. destruct k; cbn [sp repeat app].
+        + destruct cm; cbn [print_comment app]; eexists; eexists; (split; [reflexivity | unfold c_bom; lia]).
+        + eexists; eexists; split; [reflexivity | unfold c_bom; lia].
+      - unfold print_ltails. cbn [map concat]. unfold print_ltail at 1. cbn [fst snd].
+        destruct n; cbn [sp repeat app].
+        + destruct c; cbn [print_comment app]; eexists; eexists; (split; [reflexivity | unfold c_bom; lia]).
+        + eexists; eexists; split; [reflexivity | unfold c_bom; lia]. }
+    destruct Hh as [x [t' [Hx Hb]]]. rewrite (peek0 _ _ _ Hx). cbn [bind].
+    apply N.eqb_neq in Hb. rewrite Hb. reflexivity. }
+  rewrite H0. cbn [bind].
+  apply (stnt_f_gen (sp k ++ print_comment cm ++ [0]) (sp k ++ print_comment cm)).
+  - intros f s' Hs'. apply stnt_f_end; assumption.
+  - destruct k; cbn [sp repeat app]; [destruct cm; cbn [print_comment app]|]; eauto.
+  - exact Hwf.
+  - exact Hr.
+  - unfold fuel_of. rewrite Hr, app_length. pose proof (print_ltails_length xs). lia.
+Qed.
